@@ -86,6 +86,12 @@ func recUnbounded(form string) string {
 		return "function f(){ 'a'.replace('a', f) } f()"
 	case "jsonToJSON":
 		return "var o = { toJSON: function(){ return JSON.stringify(o) } }; JSON.stringify(o)"
+	case "jsonToJSONFresh":
+		return "var a = { toJSON: function(){ return { x: a } } }; JSON.stringify(a)"
+	case "jsonToJSONFreshArray":
+		return "var a = { toJSON: function(){ return [a] } }; JSON.stringify(a)"
+	case "jsonReplacerFresh":
+		return "JSON.stringify({ a: 1 }, function(k, v){ return { n: 1 } })"
 	case "cyclicJoin":
 		return "var a = []; a[0] = a; a.join()"
 	case "cyclicToString":
